@@ -24,7 +24,7 @@ fn n_tables() -> u64 {
 fn strata(t: Tier) -> Vec<Stratum> {
     vec![
         ex("small-tables-exhaustive", scale(t, n_tables(), n_tables(), 40)),
-        st("random-tables", scale(t, 3_000_000, 30_000_000, 10)),
+        st("random-tables", scale(t, 3_000_000, 30_000_000, 480)),
     ]
 }
 
@@ -152,6 +152,7 @@ fn run(ctx: &mut Ctx, si: usize, case: u64) {
             let len = match ctx.rng.below(4) {
                 0 => ctx.rng.usize_below(16),
                 1 => ctx.rng.usize_below(256),
+                _ if ctx.tier == Tier::Miri => ctx.rng.usize_below(160),
                 _ => ctx.rng.usize_below(4097),
             };
             let mut table = vec![0u8; len];
@@ -166,6 +167,14 @@ fn run(ctx: &mut Ctx, si: usize, case: u64) {
                 } else {
                     0x21 + ctx.rng.below(0x5e) as u8
                 };
+            }
+            // the bytes next to a terminator take boundary values now and then
+            if ctx.rng.chance(1, 3) {
+                for i in 1..len {
+                    if table[i] == 0 && table[i - 1] != 0 && ctx.rng.chance(1, 2) {
+                        table[i - 1] = [0x01u8, 0x7f, 0x80, 0xff][ctx.rng.usize_below(4)];
+                    }
+                }
             }
             if len > 0 && ctx.rng.chance(1, 3) {
                 table[len - 1] = b'x';
